@@ -245,6 +245,8 @@ def build_world(case, audio_root: Path):
                     "outside_case": audio_root.parent / audio_root.name.swapcase()}[place]
             p = base.joinpath(*case.get("dir", [])) / (i + "_" + case.get("file", "rec.wav"))
             kw = scalars(data.Recording, i, pat, skip=("path", "tags", "notes", "owners"))
+            if "hash" in kw:
+                kw["hash"] = "0123abcd-same-content"      # distinct recordings (uuid, path) holding byte-identical files share their content hash
             kw.setdefault("duration", 10.0); kw.setdefault("channels", 1); kw.setdefault("samplerate", 8000)
             o = data.Recording(uuid=u, path=p, tags=[objs[t] for t in d["tags"]],
                                notes=[note(n, f"{i}.n{j}") for j, n in enumerate(d["notes"])],
@@ -469,13 +471,17 @@ def outcome_of(fn):
 def run_cycles(case, workdir: Path):
     """Save / load (fresh call) `cycles` times; returns the observation `out` for C01/C02."""
     tmp = Path(tempfile.mkdtemp(prefix="aoef_", dir=str(workdir)))
+    cwd = os.getcwd()
     try:
-        audio = tmp / "audio dir"
+        # audio "str": the directory (and with it every recording path) is RELATIVE to the working directory, and the
+        # documents are written into another directory than the working directory; "path": absolute
+        os.chdir(tmp)
+        audio = Path("audio dir") if case.get("audio", "none") == "str" else tmp / "audio dir"
         root, rev, _recs = build_world(case, audio)
         adir = {"none": None, "str": str(audio), "path": audio}[case.get("audio", "none")]
         cycles, cur, first_doc, traces = [], root, None, []
         for n in range(case.get("cycles", 1)):
-            f = tmp / f"c{n}.json"
+            f = tmp / "docs" / f"c{n}.json"
             tf = tmp / f"trace{n}.ndjson"
             if hooks_enabled():
                 os.environ["SOUNDEVENT_VERIF"] = str(tf)
@@ -502,6 +508,7 @@ def run_cycles(case, workdir: Path):
                 break
         return {"cycles": cycles, "traces": traces, "hooks": hooks_enabled()}
     finally:
+        os.chdir(cwd)
         shutil.rmtree(tmp, ignore_errors=True)
 
 
